@@ -21,7 +21,7 @@ def seeded_table():
         m = json.load(open(p)); name = os.path.basename(os.path.dirname(p))
         n += 1; c += bool(m.get("caught_by_quick_check"))
         cut = lambda s, k: (s or "").replace("|", "/").replace("\n", " ")[:k]
-        rows.append(f"| {name} | {m['property']} | {cut(m.get('summary'), 220)} | {cut(m.get('needs'), 200)} | {'yes' if m.get('caught_by_quick_check') else 'NO'} | {m.get('first_signature') or '-'} | {cut(m.get('note'), 260)} |")
+        rows.append(f"| {name} | {m['property']} | {cut(m.get('summary'), 220)} | {cut(m.get('needs'), 200)} | {'n/a (stale)' if m.get('stale') else 'yes' if m.get('caught_by_quick_check') else 'NO'} | {m.get('first_signature') or '-'} | {cut(m.get('note'), 260)} |")
     # per-round statistics (round 1: CXX-k, later rounds: CXX-rN-k); "initially MISSED" is recorded in the note
     stats = {}
     for p in sorted(glob.glob(os.path.join(HERE, "seeded", "*", "meta.json"))):
